@@ -15,7 +15,7 @@ import (
 func init() {
 	register(&Property{
 		ID:          "C16",
-		Explanation: "R5: the source and name indices that ParseSourceMap stores into a Mapping (and that every consumer later uses to index the sources/names arrays unchecked) are, up to conversions, exactly the SSA values whose two range tests are known false where they are stored; arithmetic applied after the checks is reported. Decides four hazards the code manages by convention (necessary conditions of 'no crash, hang or internal error', not termination or absence of index/nil panics): R1 the typed lexer panic (js_lexer.LexerPanic) can propagate only to functions of js_lexer/js_parser and is recovered by every entry point other packages call; R2 every type switch / enum switch whose default arm panics and that dispatches over a whole sealed node family (printExpr, printStmt, visitExprInOut, printRule, ...) has a case for every implementer/constant, or a reviewed reason why that kind cannot reach it; R3 parseFile sends exactly one result on every path (including the recover path), and every goroutine that signals a WaitGroup does so on every path; R4 the file-handle semaphore (BeforeFileOpen/AfterFileClose) is released on every exit. R10 shared-ast-immutability: the C09/R2 frozen-AST analysis (no symbol ref of one link stored into memory that outlives it). R11 keyed-callback-lists-refiltered: slices whose elements are keys of unchecked map-lookup calls are reset or filtered against the new value after every store of the map's container. R12 inject-before-results: in parseFile no send on inject is reachable after a send on results. R13 indent-is-minimum-over-all-lines: the non-counter update of the slice low bound in CommentTextWithoutIndent is control dependent only on the comparison with the running value. NOT covered: loop termination, recursion depth, index/nil safety on malformed input, unreachability of panic(\"Internal error\") sites.",
+		Explanation: "R5: the source and name indices that ParseSourceMap stores into a Mapping (and that every consumer later uses to index the sources/names arrays unchecked) are, up to conversions, exactly the SSA values whose two range tests are known false where they are stored; arithmetic applied after the checks is reported. Decides four hazards the code manages by convention (necessary conditions of 'no crash, hang or internal error', not termination or absence of index/nil panics): R1 the typed lexer panic (js_lexer.LexerPanic) can propagate only to functions of js_lexer/js_parser and is recovered by every entry point other packages call; R2 every type switch / enum switch whose default arm panics and that dispatches over a whole sealed node family (printExpr, printStmt, visitExprInOut, printRule, ...) has a case for every implementer/constant, or a reviewed reason why that kind cannot reach it; R3 parseFile sends exactly one result on every path (including the recover path), and every goroutine that signals a WaitGroup does so on every path; R4 the file-handle semaphore (BeforeFileOpen/AfterFileClose) is released on every exit. R10 shared-ast-immutability: the C09/R2 frozen-AST analysis (no symbol ref of one link stored into memory that outlives it). R11 keyed-callback-lists-refiltered: slices whose elements are keys of unchecked map-lookup calls are reset or filtered against the new value after every store of the map's container. R12 inject-before-results: in parseFile no send on inject is reachable after a send on results. R13 indent-is-minimum-over-all-lines: the non-counter update of the slice low bound in CommentTextWithoutIndent is control dependent only on the comparison with the running value. R14 no-must-compile-on-computed-pattern: regexp.MustCompile only with constant arguments. NOT covered: loop termination, recursion depth, index/nil safety on malformed input, unreachability of panic(\"Internal error\") sites.",
 		Run: func(p *Prog, tier string) []*RuleResult {
 			return []*RuleResult{c16PanicContainment(p), c16DefaultExhaustive(p), c16ExactlyOnce(p), c16AcquireRelease(p), c16CheckedIndex(p), c16MarkBeforeRecurse(p), c16PrefixSuffixOverlap(p), c16UnrepresentableNames(p), c16SeparatorFollowed(p), renamed(c09Frozen(p), "C16/R10 shared-ast-immutability", "symbol references written into a cached AST outlive the link that generated the symbols; a later build prints them against its own symbol table and panics with an index out of range (same analysis as C09/R2)"), c16KeyedCallbackLists(p), injectBeforeResults(p, "C16/R12 inject-before-results"), c16IndentMinimumOverAll(p), c16NoMustCompileComputed(p)}
 		},
